@@ -632,6 +632,7 @@ func genExts(r *rand.Rand, p *projSpec, cycles bool) {
 		e := extSpec{Sel: r.IntN(len(extVersions)), Val: genValue(r, valueKinds[:15]), Lit: genValue(r, literalKinds), Loads: -1, Util: r.IntN(3) == 0, Yields: r.IntN(3), Same: r.IntN(6) == 0}
 		if i+1 < ne && r.IntN(2) == 0 {
 			e.Loads = i + 1 + r.IntN(ne-i-1)
+			e.ViaGlobal = r.IntN(2) == 0
 		}
 		p.Exts = append(p.Exts, e)
 	}
